@@ -297,8 +297,9 @@ func (st *State) Load(p PtrVal, t types.Type) Value {
 	}
 	if len(p.Path) == 1 && p.Path[0].Field < 0 && st.fx.factObjs[p.Obj] != nil {
 		// a read of a table that is abstracted by table facts: the facts hold at this index
-		for _, inst := range st.fx.tableInstance(p.Obj, p.Path[0].Idx) {
-			st.fx.axiom(inst)
+		// (path-local assumption: a function-wide axiom per read site would be carried by every VC of the function)
+		for _, inst := range st.fx.tableInstanceNoDedupe(p.Obj, p.Path[0].Idx) {
+			st.assume(inst)
 		}
 	}
 	return v
